@@ -592,7 +592,10 @@ impl<S: WebSocket, T: TimestampProvider> Task<S, T> {
                 if let Err(e) = self.datagram_tx.try_send(datagram) {
                     match e {
                         TrySendError::Full(_) => warn!("Dropped datagram: {e}"),
-                        TrySendError::Closed(_) => return Err(Error::Closed),
+                        // The `Multiplexor` is being dropped. This is not a failure of the
+                        // connection: `process_dropped_flows_task` will see the drop and
+                        // flush what was queued before closing.
+                        TrySendError::Closed(_) => debug!("Dropped datagram: {e}"),
                     }
                 }
             }
@@ -687,10 +690,12 @@ impl<S: WebSocket, T: TimestampProvider> Task<S, T> {
         // user.
         trace!("sending stream to user");
         // This goes to the user
-        self.con_recv_stream_tx
-            .send(stream)
-            .await
-            .or(Err(Error::SendStreamToClient))?;
+        if self.con_recv_stream_tx.send(stream).await.is_err() {
+            // The `Multiplexor` is being dropped. The stream comes back inside the error and
+            // is dropped here, which resets the flow. This is not a failure of the connection:
+            // `process_dropped_flows_task` will see the drop and flush what was queued.
+            debug!("`Multiplexor` dropped, discarding new stream {flow_id:08x}");
+        }
         Ok(())
     }
 
